@@ -314,6 +314,32 @@ func suiteC11(c *ctx) {
 		}
 	}
 	for i := 0; i < c.n(40); i++ {
+		// the data flushed so far ends a few bytes past a fill of the decoder's output window: the last
+		// symbols before the flush point are still in the bit buffer when the window is handed out
+		api := r.PickS([]string{"flate", "flate", "gzip", "zlib"})
+		std := i%2 == 0
+		s := Setting{API: api, Level: r.Pick([]int{-1, 1, 2, 6, 9, -2})}
+		n1 := 65536 + 32768*r.Intn(2) + r.Range(1, 14)
+		w := &WCase{Set: s, Datas: []DataSpec{{Gen: r.PickS([]string{"text", "uni4", "uni6", "rnd", "two"}), Seed: r.U64(), N: n1 + 50}}}
+		w.Ops = []Op{{K: "w", N: n1}, {K: "f"}, {K: "w", N: 50}, {K: "c"}}
+		kind := "fast"
+		if std {
+			kind = "std"
+		}
+		pts, _, _ := flushPoints(w, std)
+		p := pts[0]
+		for _, q := range pts {
+			if q[0] == n1 {
+				p = q
+			}
+		}
+		rc := &RCase{Prop: "C11", ID: fmt.Sprintf("C11-w%d", i), API: api, Stream: StreamSpec{Kind: kind, W: w}, Cut: -1, Ctor: "new",
+			Reads: r.PickS([]string{"big", "k257", "rand", "k32768"}), RSeed: r.U64(), Expect: p[0]}
+		rc.Src = SrcSpec{Kind: r.PickS([]string{"bufio", "bufio", "plain"}), Buf: r.Pick(bufSizes), Chunk: r.PickS([]string{"all", "rand", "k4096"}), Seed: r.U64(),
+			Term: r.PickS([]string{"gate", "gate", "err", "errdata"}), After: p[1]}
+		cases = append(cases, rc)
+	}
+	for i := 0; i < c.n(40); i++ {
 		// raw streams that END with their data: the final block is a non-empty stored block (or a
 		// Huffman block) and the source delivers exactly the stream, then blocks or fails
 		sp := &SynthSpec{Seed: r.U64(), Blocks: 1 + r.Intn(3), Size: r.Pick([]int{1, 5, 300, 5000, 40000}), Kinds: r.PickS([]string{"s", "s", "sd", "sfd", "f"})}
@@ -477,7 +503,37 @@ func suiteC18(c *ctx) {
 		if rc.Reads == "one" && rc.Stream.Kind != "synth" {
 			rc.Reads = "k3"
 		}
+		switch i % 5 {
+		case 3:
+			// output crossing the edge of the decoder's window inside packed entries (also "literal +
+			// length 258" entries ending just past the edge), the source pausing at every byte
+			rc.Stream = StreamSpec{Kind: "synth", Synth: &SynthSpec{Seed: r.U64(), Blocks: 3, Size: i % 2, Kinds: "E"}}
+			rc.Src = SrcSpec{Kind: "bufio", Buf: r.Pick([]int{16, 64, 4096}), Chunk: r.PickS([]string{"one", "rand", "all", "tail", "tail", "tail"}), Seed: r.U64(), Term: "eof"}
+			if rc.Src.Chunk == "tail" {
+				// two deliveries: everything but the last few bytes, then the rest
+				st, _, _, _ := rc.Stream.Materialize()
+				rc.Src.Chunk = fmt.Sprintf("at%d", max0(len(st)-r.Range(1, 24)))
+				rc.Src.Buf = 4096
+			}
+		case 4:
+			rc.Stream = StreamSpec{Kind: "synth", Synth: &SynthSpec{Seed: r.U64(), Blocks: 2, Size: (i / 5) % 2, Kinds: "B"}}
+			rc.Src = SrcSpec{Kind: "bufio", Buf: r.Pick([]int{64, 4096, 8192, 65536}), Chunk: r.PickS([]string{"all", "rand", "one"}), Seed: r.U64(), Term: "eof"}
+			if (i/5)%2 == 1 {
+				rc.Suffix = hexs(r.Bytes(5000 + r.Intn(4000)))
+			}
+		}
 		vc = append(vc, rc)
+	}
+	// units <literal><match 258> running up to the edge of the first output window, the packed entry
+	// "literal + length 258" of the last unit starting 258 (+-1) bytes before the edge; the input is
+	// delivered in two pieces, the second being the last 1..16 bytes
+	for i := 0; i < c.n(8); i++ {
+		s := StreamSpec{Kind: "synth", Synth: &SynthSpec{Seed: r.U64(), Blocks: 1, Size: 9 + i%3, Kinds: "U"}}
+		st, _, _, _ := s.Materialize()
+		for k := 1; k <= 16 && k < len(st); k++ {
+			vc = append(vc, &RCase{Prop: "C18", ID: fmt.Sprintf("C18-u%d-%d", i, k), API: "flate", Stream: s, Cut: -1,
+				Src: SrcSpec{Kind: "bufio", Buf: 4096, Chunk: fmt.Sprintf("at%d", len(st)-k), Term: "eof"}, Ctor: "new", Reads: "big", RSeed: r.U64()})
+		}
 	}
 	parallelJ(len(vc), func(i int) interface{} { return vc[i] }, func(i int) { checkC02(c.rep, c.pool, vc[i]) })
 	var wc []*WCase
